@@ -104,13 +104,16 @@ def c13_lattice(ver):
             for disct in (False, True):
                 for tf in ("", "+sse4.2", "+avx2", "+sse4.2,+avx2"):
                     for hooks in (True, False):
-                        combos.append((std, dis, disct, tf, hooks))
+                        for rel in (False, True):
+                            if hooks and rel:
+                                continue
+                            combos.append((std, dis, disct, tf, hooks, rel))
     root = os.path.join(vd.TARGET_ROOT, "lattice")
     shutil.rmtree(root, ignore_errors=True)
     os.makedirs(root, exist_ok=True)
 
     def one(i_c):
-        i, (std, dis, disct, tf, hooks) = i_c
+        i, (std, dis, disct, tf, hooks, rel) = i_c
         env = dict(os.environ)
         env["CARGO_NET_OFFLINE"] = "true"
         if dis:
@@ -127,8 +130,10 @@ def c13_lattice(ver):
                os.path.join(root, "c%d" % i)]
         if not std:
             cmd.append("--no-default-features")
+        if rel:
+            cmd.append("--release")
         r = subprocess.run(cmd, env=env, stdout=subprocess.PIPE, stderr=subprocess.STDOUT, text=True)
-        return (i, (std, dis, disct, tf, hooks), r.returncode, r.stdout[-1500:])
+        return (i, (std, dis, disct, tf, hooks, rel), r.returncode, r.stdout[-1500:])
 
     with ThreadPoolExecutor(max_workers=NCPU) as ex:
         res = list(ex.map(one, enumerate(combos)))
@@ -136,17 +141,17 @@ def c13_lattice(ver):
     bad = [r for r in res if r[2] != 0]
     ok = len(res) - len(bad)
     ver.extra["cfg_lattice"] = dict(builds=len(res), succeeded=ok,
-                                    dimensions="std x DISABLE_SIMD x DISABLE_SIMD_COMPILETIME x {none,+sse4.2,+avx2,+sse4.2+avx2} x hooks{on,off}")
+                                    dimensions="std x DISABLE_SIMD x DISABLE_SIMD_COMPILETIME x {none,+sse4.2,+avx2,+sse4.2+avx2} x {hooks off dev, hooks off release, hooks on dev}")
     for (i, c, rc, out) in bad[:3]:
-        name = "std=%s DISABLE_SIMD=%s DISABLE_SIMD_COMPILETIME=%s target-feature=%s hooks=%s" % c
+        name = "std=%s DISABLE_SIMD=%s DISABLE_SIMD_COMPILETIME=%s target-feature=%s hooks=%s release=%s" % c
         # a hooks-on-only failure is the instrumentation's problem, not the repository's
-        if c[4] and not any(b[1][:4] == c[:4] and not b[1][4] for b in bad):
+        if c[4] and not any(b[1][:4] == c[:4] and not b[1][4] and not b[1][5] for b in bad):
             ver.inconclusive.append("lattice build fails only with hooks on: %s\n%s" % (name, out))
             continue
         ver.violations.append(dict(property="C13", rule="switch_combination_does_not_build", variant="lattice", signature=None,
                                    detail="%s: cargo check failed: %s" % (name, out[-900:]),
                                    replay=["lattice", name],
-                                   replay_cmd=["python3", "driver/lattice_case.py", str(int(c[0])), str(int(c[1])), str(int(c[2])), c[3] or "-"]))
+                                   replay_cmd=["python3", "driver/lattice_case.py", str(int(c[0])), str(int(c[1])), str(int(c[2])), c[3] or "-", str(int(c[5]))]))
     ver.evaluations += len(res)
 
 
@@ -295,7 +300,7 @@ def c20(ver):
     binp = os.path.join(d, "scale")
     outdir = os.path.join(vd.TARGET_ROOT, "out")
     sizes = [1 << 12, 1 << 14, 1 << 16] if ver.tier == "quick" else [1 << 12, 1 << 14, 1 << 16, 1 << 18, 1 << 20]
-    fams = list(range(24))
+    fams = list(range(29))
     bks = [1, 3] if ver.tier == "quick" else [1, 2, 3]
     jobs = [(f, n, b) for f in fams for n in sizes for b in bks]
     with ThreadPoolExecutor(max_workers=NCPU) as ex:
@@ -331,7 +336,7 @@ def c20(ver):
                                   sample_points=[dict(family=k[2], backend=k[1], points=v) for k, v in list(sorted(table.items()))[:6]])
     import engines
     engines.extra(ver)
-    rule = ("A case is one parse of an adversarial-family input (24 families: folded 1-byte lines, ignored lines, whitespace runs in "
+    rule = ("A case is one parse of an adversarial-family input (29 families: folded 1-byte lines, ignored lines, whitespace runs in "
             "every position, TAB runs/alternation, near-miss blocks every 8/33 bytes, tiny headers with capacity N and 0, 1 MiB-class "
             "target/name/value/reason, leading empty lines, chunk extensions, multi-space delimiters, ...) at several sizes x forced "
             "backend, plus every other entry point of the kind, a cut at 2/3, and large grammar-random inputs. Oracle 1 (hook "
